@@ -1,5 +1,6 @@
 SPECIFICATION Spec
 CONSTANTS
+  UDeep = 0
   MaxFeats = 1
   Mode = "merge"
   NSources = 2
